@@ -6,7 +6,7 @@ set_option linter.unusedSectionVars false
 set_option linter.unusedVariables false
 namespace Frappy.Lemmas.C01
 open FloatOps DType Frappy.Datatypes Frappy.Spec.C01
-open PVal (toFloat? seqItems? prevItems prevFields dictGet dictSet ofJVal)
+open PVal (toFloat? seqItems? prevItems prevFields dictGet dictSet ofJVal isNone given notOffered)
 
 variable {F : Type} [FloatOps F] [LawfulFloatOps F]
 
